@@ -491,10 +491,9 @@ func (cs *cidCase) wantNotdef(c []byte) uint32 {
 	return 0
 }
 
-// listedEntries re-enacts which entries SetMapping keeps at each level (it leaves out an entry when
-// Parent.LookupCID already gives its CID, be it from a mapping or from notdef entries).  Used for the
-// enumeration (an omitted entry need not be listed) and to recognise the known finding
-// cid-setmapping-omits-entry-shadowed-by-own-notdef; the expected LOOKUP results never come from here.
+// listedEntries: which entries may be absent from the enumeration.  SetMapping may leave out an entry
+// that a MAPPING of the parent chain already provides with the same CID (never one that only the notdef
+// entries answer); the expected LOOKUP results never come from here.
 func (cs *cidCase) listedEntries(codec *charcode.Codec) []map[charcode.Code]uint32 {
 	var ent []map[charcode.Code]uint32
 	for i := range cs.Levels {
@@ -502,7 +501,7 @@ func (cs *cidCase) listedEntries(codec *charcode.Codec) []map[charcode.Code]uint
 		for k, v := range cs.Levels[i].Data {
 			if i > 0 {
 				sub := cidCase{CSR: cs.CSR, Levels: cs.Levels[:i]}
-				if sub.chainAnswer(ent, codec.AppendCode(nil, k)) == uint32(v) {
+				if below, ok := sub.wantMapped(codec.AppendCode(nil, k)); ok && below == uint32(v) {
 					continue
 				}
 			}
@@ -511,19 +510,6 @@ func (cs *cidCase) listedEntries(codec *charcode.Codec) []map[charcode.Code]uint
 		ent = append(ent, m)
 	}
 	return ent
-}
-
-// chainAnswer: nearest listed entry, else the nearest notdef entry
-func (cs *cidCase) chainAnswer(ent []map[charcode.Code]uint32, c []byte) uint32 {
-	if inCSR(cs.CSR, c) {
-		code := codeOf(c)
-		for j := len(ent) - 1; j >= 0; j-- {
-			if v, ok := ent[j][code]; ok {
-				return v
-			}
-		}
-	}
-	return cs.wantNotdef(c)
 }
 
 func isListed(ent []map[charcode.Code]uint32, code charcode.Code) bool {
@@ -732,14 +718,6 @@ func (t *runner) checkCIDFile(cs *cidCase, f *cmap.File, codec *charcode.Codec, 
 		got := uint32(f.LookupCID(p))
 		if want, ok := cs.wantMapped(p); ok {
 			if got != want {
-				if !isListed(ent, codeOf(p)) && got == cs.wantNotdef(p) {
-					// the known finding: SetMapping left the entry out because the parent answers it from
-					// the parent's notdef entries, and the file's own notdef entries answer differently
-					e.Fail("cid-setmapping-omits-entry-shadowed-by-own-notdef", fmt.Sprintf("LookupCID(<%x>) = %d, the map says %d: the entry was omitted "+
-						"because Parent.LookupCID gives %d through notdef entries, but the file's own notdef entries apply first (%s)", p, got, want, want, stage),
-						with(desc, "code", common.Hex(p), "got", got, "want", want))
-					continue
-				}
 				e.Fail("cid-lookup-"+stage, fmt.Sprintf("LookupCID(<%x>) = %d, the map says %d (%s)", p, got, want, stage),
 					with(desc, "code", common.Hex(p), "got", got, "want", want))
 				return
@@ -1335,6 +1313,25 @@ func (t *runner) genCIDCase(class string) *cidCase {
 				mapped = append(mapped, c)
 			}
 		}
+		if i > 0 && (len(l.NdRng) > 0 || r.IntN(3) == 0) {
+			// entries whose CID equals the notdef answer of the chain below (they must be kept: the
+			// notdef entries of this or of a later level may answer differently)
+			sub := cidCase{CSR: cs.CSR, Levels: cs.Levels}
+			for k := 0; k < 1+r.IntN(4); k++ {
+				box := cs.CSR[r.IntN(len(cs.CSR))]
+				if len(l.NdRng) > 0 && r.IntN(2) == 0 {
+					box = charcode.Range{Low: l.NdRng[0].First, High: l.NdRng[0].Last}
+				}
+				c := make([]byte, len(box.Low))
+				for j := range c {
+					c[j] = t.byteIn(box.Low[j], box.High[j])
+				}
+				if _, ok := sub.wantMapped(c); ok || !inCSR(cs.CSR, c) {
+					continue
+				}
+				l.Data[codeOf(c)] = cid.CID(sub.wantNotdef(c))
+			}
+		}
 		for _, k := range sortedCodes(l.Data) {
 			mapped = append(mapped, codec.AppendCode(nil, k))
 		}
@@ -1468,14 +1465,25 @@ func (t *runner) childNotdef() {
 	}
 	cs.Probes = [][]byte{{1, 2, 3, 4}, {2, 2, 3, 4}, {0, 0, 0, 0}, {0x7f, 0xff, 0xff, 0xff}, {0x80, 0, 0, 0}, {0x80, 0, 0, 1}, {0xff, 0xff, 0xff, 0xff}, {0xc0, 1, 2, 3}}
 	t.runCID(cs, true)
-	// the known finding: 50 -> 0 is omitted because the parent answers 0 (no notdef entries there), and
-	// the file's own notdef range then answers with its CID
+	// F34: 50 -> 0 must be kept although the parent answers 0 for <50> (from notdef, not from a mapping):
+	// the file's own notdef range would otherwise answer with its CID
 	cs = &cidCase{CSR: charcode.Simple, Class: "shadowed-omission"}
 	cs.Levels = []cidLevel{
 		{Data: map[charcode.Code]cid.CID{0x41: 1}, HasROS: true},
-		{Data: map[charcode.Code]cid.CID{0x50: 0, 0x51: 9}, HasROS: true, NdRng: []ndRange{{First: []byte{lo}, Last: []byte{lo + 0x40}, Value: nd}}},
+		{Data: map[charcode.Code]cid.CID{0x41: 1, 0x50: 0, 0x51: 9}, HasROS: true, NdRng: []ndRange{{First: []byte{lo}, Last: []byte{lo + 0x40}, Value: nd}}},
 	}
 	cs.Probes = [][]byte{{0x41}, {0x50}, {0x51}, {lo}, {lo - 1}}
+	t.runCID(cs, true)
+	// three levels: the entry of the middle level equals the root's notdef answer, the top level has notdef
+	// entries of its own and does not map the code
+	cs = &cidCase{CSR: charcode.Simple, Class: "shadowed-omission"}
+	cs.Levels = []cidLevel{
+		{Data: map[charcode.Code]cid.CID{0x41: 1}, HasROS: true, NdRng: []ndRange{{First: []byte{0}, Last: []byte{0xff}, Value: 40}}},
+		{Data: map[charcode.Code]cid.CID{0x50: 40, 0x52: 0, 0x41: 1}, HasROS: true},
+		{Data: map[charcode.Code]cid.CID{0x51: 9, 0x53: 40}, HasROS: true, NdRng: []ndRange{{First: []byte{lo}, Last: []byte{lo + 0x40}, Value: nd}},
+			NdOne: []ndRange{{First: []byte{0x53}, Last: []byte{0x53}, Value: 70}}},
+	}
+	cs.Probes = [][]byte{{0x41}, {0x50}, {0x51}, {0x52}, {0x53}, {lo}, {lo - 1}, {0xf0}}
 	t.runCID(cs, true)
 }
 
